@@ -80,6 +80,8 @@ const (
 	idSelfSigned
 	idExpired
 	idNotYet
+	idExpiredRecently // NotAfter 90 s ago: no tolerance for "recently" expired certificates
+	idNotYetSoon      // NotBefore 90 s ahead
 	idWrongIP
 	idWrongDNS
 	idPlain
@@ -87,7 +89,7 @@ const (
 )
 
 var identityNames = []string{"issued-by-CA-A", "issued-by-CA-B", "issued-by-foreign-CA", "issued-by-system-trusted-CA",
-	"self-signed", "expired", "not-yet-valid", "valid-for-another-IP", "valid-for-a-DNS-name-only", "plaintext-no-TLS"}
+	"self-signed", "expired", "not-yet-valid", "expired-90s-ago", "valid-in-90s", "valid-for-another-IP", "valid-for-a-DNS-name-only", "plaintext-no-TLS"}
 
 type vrange struct{ min, max uint16 }
 
@@ -188,6 +190,12 @@ func buildPKI() *pki {
 				c, err = p.caA.Issue(l)
 			case idNotYet:
 				l.NotBefore = p.now.Add(day)
+				c, err = p.caA.Issue(l)
+			case idExpiredRecently:
+				l.NotAfter = p.now.Add(-90 * time.Second)
+				c, err = p.caA.Issue(l)
+			case idNotYetSoon:
+				l.NotBefore = p.now.Add(90 * time.Second)
 				c, err = p.caA.Issue(l)
 			case idWrongIP:
 				l.IPs = []string{"127.0.0.9"}
